@@ -64,7 +64,9 @@ Fixpoint trim_left_rev (l : bytes) : bytes :=
       end
   end.
 
-Definition trim_space (l : bytes) : bytes := rev (trim_left_rev (rev (trim_left_sp l))).
+(* rev' is the linear-time reversal of the standard library (rev_append l []); List.rev is quadratic,
+   which matters for entry lines of 64 KiB and more *)
+Definition trim_space (l : bytes) : bytes := rev' (trim_left_rev (rev' (trim_left_sp l))).
 
 (* in[:bytes.IndexByte(in, c)], the whole slice when c does not occur *)
 Fixpoint cut_at (c : N) (l : bytes) : bytes :=
